@@ -100,6 +100,12 @@ pub mod ax {
     pub broadcast axiom fn display_ref<T: core::fmt::Display>(x: &T, f: &core::fmt::Formatter<'_>)
         requires DisplaySpec::fmt_req(x, f)
         ensures #[trigger] DisplaySpec::fmt_req(&x, f);
+//# section: ax-str-ext
+    // TRUSTED: two `&str` with the same character sequence are equal values (needed to reason about
+    // `match s { "lit" => .. }`, which compares by content).
+    pub broadcast axiom fn str_ext(a: &str, b: &str)
+        requires #[trigger] a@ == #[trigger] b@
+        ensures a == b;
 //# section: ax-end
 }
 //# section: stdspec-begin
